@@ -12,7 +12,7 @@ ANCHORS = [  # (module, substring, action name)
     ("BPTK_Py.server.bptkServer", "instance.lock()", "K"),
     ("BPTK_Py.server.bptkServer", "instance.unlock()", "U"),
     ("BPTK_Py.bptk", 'step = self.session_state["step"]', "R"),
-    ("BPTK_Py.bptk", 'self.session_state["step"]=step+dt', "W"),
+    ("BPTK_Py.bptk", 'self.session_state["step"]=', "W"),
 ]
 
 
